@@ -56,7 +56,7 @@ SALT_Q = R("salt_q", "salt_q.cfg", rounds=3, expect_ops=["add_salt", "add_salt_w
            expect_out=["add_salt_with_len:err", "add_salt_in_range:err"])
 
 TRACE_WALK = dict(name="trace_walk", kind="trace", driver="tracecheck", gen_args=["--traces", 24, "--len", 150],
-                  expect_ops=["add_assertion_envelope", "elide_set", "encrypt_subject", "decrypt_subject", "compress", "uncompress", "encode_decode", "remove_present", "replace_subject", "add_salt"])
+                  expect_ops=["add_assertion_envelope", "elide_set", "encrypt_subject", "decrypt_subject", "compress", "uncompress", "encode_decode", "remove_present", "replace_present", "replace_subject", "add_salt"])
 TRACE_WALK_T = dict(TRACE_WALK, name="trace_walk_t", gen_args=["--traces", 120, "--len", 300, "--max-elements", 60])
 TRACE_ORDER = dict(name="trace_order", kind="trace", driver="tracecheck", gen_args=["--mode", "order"], expect_ops=["add_assertion_envelope", "encode_decode"])
 TRACE_BYTES = dict(name="trace_bytes", kind="trace", driver="tracecheck", gen_args=["--mode", "bytes", "--count", 20000], expect_ops=["decode_bytes"])
@@ -66,6 +66,8 @@ TRACE_SALT_T = dict(TRACE_SALT, name="trace_salt_t", gen_args=["--mode", "salt",
 
 TOTAL_Q = R("total_q", "total_q.cfg", expect_ops=["replace_subject", "compress_subject", "add_assertion_envelope", "obs_lookup", "add_salt"])
 
+REGISTRY_Q = dict(name="registry_q", module="Registry", cfg="Registry.cfg", rounds=1, replayer="regreplay", workers=4,
+                  expect_ops=["kv_insert", "fn_insert", "pm_insert", "make_context"])
 LOCKS_Q = dict(name="locks_q", kind="locks", driver="lockcheck", threads=3, calls=2, rounds=40, stress_threads=16, stress_calls=3)
 LOCKS_T = dict(name="locks_t", kind="locks", driver="lockcheck", threads=4, calls=2, rounds=300, stress_threads=16, stress_calls=4, timeout=3000)
 
@@ -75,6 +77,9 @@ OBS_Q3 = R("obscure_q3", "obscure_q3.cfg", expect_ops=["compress_subject", "unco
 
 DEEP_S = R("deep_s", "deep_s.cfg", rounds=1, simulate="num=25", depth=10, workers=4, expect_ops=["add_salt", "add_signature", "elide_set", "encrypt_subject", "compress_subject"])
 DEEP_S_T = dict(DEEP_S, name="deep_s_t", simulate="num=400", rounds=2)
+DEEP_X = R("deep_x", "deep_x.cfg", rounds=1, simulate="num=25", depth=10, workers=4,
+           expect_ops=["elide_set", "add_signature", "seal", "encrypt_subject_to_recipients", "proof_contains_set", "obs_confirm", "add_attachment", "forge_signed", "tamper", "sskr_join", "obs_verify"])
+DEEP_X_T = dict(DEEP_X, name="deep_x_t", simulate="num=300", rounds=2, timeout=3000)
 
 FORGE_Q = R("forge_q", "forge_q.cfg", expect_ops=["forge_encrypted", "forge_compressed", "tamper", "corrupt", "decrypt_subject", "uncompress_subject"], expect_out=["decrypt_subject:err", "uncompress_subject:err", "uncompress_subject:ok"])
 
@@ -125,9 +130,9 @@ PLAN = {
         quick=[QUERY_Q],
     ),
     "C16": dict(
-        rule="every call of every configuration runs under catch_unwind; a panic is never an allowed outcome. This check runs the query / lookup / extraction family and the transform / obscure families on every shape, node-subject nodes, decorated (assertion-on-assertion) shapes and their obscured variants",
-        quick=[QUERY_Q, OBS_Q, TOTAL_Q, DECODE_Q],
-        thorough=[QUERY_Q, OBS_Q, TOTAL_Q, DECODE_Q, CORE_ALL3, SIG_Q, RECIPIENT_Q, SSKR_MIX_Q, ATTACH_Q, SALT_Q, DEEP_S_T],
+        rule="every call of every configuration runs under catch_unwind; a panic is never an allowed outcome. This check runs the query / lookup / extraction family and the transform / obscure families on every shape, node-subject nodes, decorated (assertion-on-assertion) shapes and their obscured variants, and random histories of 10 calls over EVERY family of the machine (deep_x, TLC simulation: core, salt, signatures and forged signatures, recipients, SSKR, proofs, types, attachments, adversarial forge / tamper, all observations) on 3 registers",
+        quick=[QUERY_Q, OBS_Q, TOTAL_Q, DECODE_Q, DEEP_X],
+        thorough=[QUERY_Q, OBS_Q, TOTAL_Q, DECODE_Q, CORE_ALL3, SIG_Q, RECIPIENT_Q, SSKR_MIX_Q, ATTACH_Q, SALT_Q, DEEP_S_T, DEEP_X_T],
     ),
     "C06": dict(
         rule="wire terms: the encoding of every shape (<= 5 elements, node-subject nodes, decorated assertions, nodes with 2-3 assertions, tagged-known-value leaves) and of its obscured variants, mutated at one position (reorder / duplicate assertion elements, drop all assertions, non-assertion in an assertion slot, unknown tag, leaf<->envelope retag, legacy leaf tag, digest one byte short/long, 0- or 2-entry assertion map, encrypted/compressed without digest or with a surplus element, non-minimal head, indefinite length, float/text/negative/bool in an element position); thorough: two positions. Each evaluated to bytes and given to the real decoder; the specification's decoder says accept (and what) or reject",
@@ -162,9 +167,9 @@ PLAN = {
         quick=[ATTACH_Q],
     ),
     "C20": dict(
-        rule="lock programs (Once gates, mutex acquire/release, dcbor tag-lock blips) extracted from the hooks of the current build for 11 call kinds (format, format_flat, tree_format, diagnostic_annotated, hex, register_tags, known-value / function / parameter lookups, encode, ur); TLC explores every interleaving of 3 threads x 2 calls (thorough: 4 x 2) over the distinct programs, all threads racing on first use: deadlock freedom, once-only initialisation, no lock held at return, termination under fairness; real stress runs of 2..16 racing threads in fresh processes with a 20 s watchdog, every result compared with the single-thread text, recorded lock events validated by TLC against LocksTrace",
-        quick=[LOCKS_Q],
-        thorough=[LOCKS_T],
+        rule="(1) lock programs (Once gates, mutex acquire/release, dcbor tag-lock blips) extracted from the hooks of the current build for 11 call kinds (format, format_flat, tree_format, diagnostic_annotated, hex, register_tags, known-value / function / parameter lookups, encode, ur); TLC explores every interleaving of 3 threads x 2 calls (thorough: 4 x 2) over the distinct programs, all threads racing on first use: deadlock freedom, once-only initialisation, no lock held at return, termination under fairness; real stress runs of 2..16 racing threads in fresh processes with a 20 s watchdog, every result compared with the single-thread text, recorded lock events validated by TLC against LocksTrace; (2) the registries as a sequential state machine (Registry.tla: KnownValuesStore as two maps, functions / parameters stores, a format context as a copy of the stores with summarizers copied again at registration): every insert / make-context sequence of length <= 4 over 2 codes x 2 names, each followed by the full projection through the query API and format() / tree_format() of probe envelopes",
+        quick=[LOCKS_Q, REGISTRY_Q],
+        thorough=[LOCKS_T, REGISTRY_Q],
         assumptions=["A-tags: code run by dcbor while it holds its tag-registry lock never calls back into a bc-envelope function that takes a registry lock", "the harness builds the crate with its multithreaded feature; the default (Rc) build is covered by the repository suite only"],
     ),
     "C18": dict(
